@@ -32,7 +32,7 @@ PROPS["C15"] = {
          "files": ["zz_verif_c15.go"], "quick": r"^VerifC15_", "thorough": r"^VerifC15T?_",
          "shards": {r"AcceptNegotiation$|DesignedContentType$|RequestDecoder$": 9, r"More$": 8}},
     ],
-    "bounds": {"quick": {"templates": 9, "symbolic_bytes_per_template": "2 (full byte range)"}, "thorough": {"templates": "9 + 8 further families (lists, q-values, wildcards, parameters, suffixes, case)", "symbolic_bytes_per_template": "2-3 (full byte range)"}},
+    "bounds": {"quick": {"templates": 9, "symbolic_bytes_per_template": "2 (full byte range)", "preset_content_types": "6 families (incl. parameters with symbolic bytes) x 5 Accept values"}, "thorough": {"templates": "9 + 8 further families (lists, q-values, wildcards, parameters, suffixes, case)", "symbolic_bytes_per_template": "2-3 (full byte range)"}},
     "assumptions": ["the stdlib json/xml/gob encoders write what their decoders read (only the *kind* of encoder/decoder is compared for them; text encoders/decoders are executed)",
                     "mime.ParseMediaType (executed symbolically from its own SSA) is the reference for 'the media type of a header value'"],
     "outside": ["header values outside the 9 template families or with more symbolic bytes", "pre-set response Content-Type headers that are not well-formed media types",
@@ -215,7 +215,7 @@ PROPS["C02"] = {
     "level": "translation_validation",
     "prepare": g_prepare,
     "jobs": [],
-    "designs": ["a1", "a2", "a3", "a4", "a5"],
+    "designs": ["a1", "a2", "a3", "a4", "a5", "a6"],
     "harness_tag": "c02",
     "quick": r"^VerifC02_", "thorough": r"^VerifC02T?_",
     "shards": {"a1_put": 4},
@@ -229,7 +229,7 @@ PROPS["C03"] = {
     "level": "translation_validation",
     "prepare": g_prepare,
     "jobs": [],
-    "designs": ["a1", "a2", "a3", "a5"],
+    "designs": ["a1", "a2", "a3", "a5", "a6"],
     "harness_tag": "c03",
     "assert_exclude": r"^openapi:",
     "quick": r"^VerifC03_", "thorough": r"^VerifC03T?_",
@@ -307,7 +307,7 @@ PROPS["C20"] = {
     },
 }
 
-ALL_DESIGNS = ["v1", "v2", "v3", "v4", "v5", "v6", "d1", "a1", "a2", "a3", "a4", "a5", "e1", "e2", "s1", "s2", "w1", "w2", "p1", "c1", "c2", "c3", "c4", "c5", "c6", "c7"]
+ALL_DESIGNS = ["v1", "v2", "v3", "v4", "v5", "v6", "d1", "a1", "a2", "a3", "a4", "a5", "e1", "e2", "s1", "s2", "w1", "w2", "p1", "c1", "c2", "c3", "c4", "c5", "c6", "c7", "c8", "a6"]
 
 PROPS["C01"] = {
     "level": "other",
@@ -317,7 +317,7 @@ PROPS["C01"] = {
     ],
     "compile_designs": ALL_DESIGNS,
     "bounds": {"scope": "4 (Unique) / 4 (HashedUnique over 3 hashes) calls with names from {a,b,a2}+optional digit 1-3, optional suffix", "goify": "every ASCII name of 0..3 bytes, both case modes",
-               "by_product": "18 catalogue designs generated by the real generator and compiled with go build (concrete, not a solver result)"},
+               "by_product": "all catalogue designs (len(ALL_DESIGNS), see catalogue_designs_generated in coverage) generated by the real generator and compiled with go build (concrete, not a solver result)"},
     "assumptions": [],
     "outside": ["everything template-level for designs outside the catalogue: the property quantifies over all designs and the generator (text/template, go/format, imports) cannot be executed symbolically",
                 "the example generator's output (imports goa.design/clue, which is not in the offline module cache, so it cannot be type-checked here)", "non-ASCII attribute names"],
@@ -340,7 +340,7 @@ PROPS["C09"] = {
          "files": ["zz_verif_c09.go"], "quick": r"^VerifC09_", "thorough": r"^VerifC09T?_"},
     ],
     "history_designs": ["d1", "a1", "w1"],
-    "bounds": {"kernels": ["codegen.AttributeTags (4 meta keys, 2 symbolic)", "openapi.TagsFromExpr (5 meta keys, 2 symbolic names)", "expr HostExpr/ServerExpr/APIExpr.Schemes (3 URIs from 5)", "codegen.File.Render SkipExist x exists (file system stubbed)"],
+    "bounds": {"kernels": ["codegen.AttributeTags (4 meta keys, 2 symbolic)", "openapi.TagsFromExpr (5 meta keys, 2 symbolic names)", "expr HostExpr/ServerExpr/APIExpr.Schemes (3 URIs from 5)", "expr MethodExpr.Finalize (4 service-level errors inherited, one optionally redefined)", "codegen.File.Render SkipExist x exists (file system stubbed)"],
                "map_orders": "every iteration order of every map ranged over (symbolic permutation)",
                "by_product": "designs d1, a1, w1: gen;gen in one directory, 3 (quick) / 10 (thorough) further fresh processes, example;edit;example, gen after example - compared byte for byte (concrete)"},
     "assumptions": [],
@@ -386,7 +386,7 @@ PROPS["C10"] = {
     "proto_errors_are_violations": True,
     "harness_tag": "c10",
     "quick": r"^VerifC10_", "thorough": r"^VerifC10T?_",
-    "bounds": {"designs": {"p1": "unary method: string, optional sint32 (Minimum 1), sint64, bool, double, uint32, repeated string, nested message, map<string,sint32>, required metadata attribute; result with nested message",
+    "bounds": {"designs": {"p1": "unary method: string, optional sint32 (Minimum 1), sint64, bool, double, uint32, repeated string, nested message, map<string,sint32>, required metadata attribute, optional metadata attribute with Enum; goa's client invoker with 3 shapes of caller metadata; result with nested message",
                            "p2": "OneOf with alias-typed alternatives (proto text only)"},
                "values": "full-width symbolic numbers, strings up to 2 bytes, one attribute group at a time"},
     "assumptions": ["protoc, protoc-gen-go and protoc-gen-go-grpc are not installed: /verif/tools/fakeprotoc/protoc turns goa's .proto into stand-in Go message structs with protoc-gen-go's field naming and the service client/server interfaces; protobuf marshalling of a message is the identity on those structs",
